@@ -11,6 +11,7 @@ CONSTANTS
   SweepMax = 5
   BuildLen = 5
   SweepOnly = FALSE
+  SharedOnly = FALSE
   DirtyOnUnset = {"above", "fork", "below"}
   UnsetBoundaryLeaves = TRUE
   CopyOnResolve = TRUE
